@@ -76,6 +76,10 @@ def render_class(spec, ind=0, parent=None):
                         '%s    self.__dict__.pop("_%s", None)' % (p, n)]
         elif k == 'unannotated':
             out += ['%sdef %s(self, x):' % (p, n), '%s    return x' % p]
+        elif k == 'undecoratable':
+            # annotated by an object that is no hint at all: decorating this member fails (fatally, or with a warning under
+            # warning_cls_on_decorator_exception, in which case only this member is left as it is)
+            out += ['%sdef %s(self, x: 0xBAD):' % (p, n), '%s    return x' % p]
         elif k == 'no_type_check':
             out += ['%s@typing.no_type_check' % p, '%sdef %s%s:' % (p, n, sig_ann), '%s    %s' % (p, body)]
         elif k == 'prewrapped':
@@ -151,7 +155,7 @@ def probes(cls, spec, prefix=''):
         n, k = m['name'], m['kind']
         good, bad = vals[m['param']]
         for tag, v in (('good', good), ('bad', bad)):
-            if k in ('method', 'unannotated', 'no_type_check', 'prewrapped'):
+            if k in ('method', 'unannotated', 'no_type_check', 'prewrapped', 'undecoratable'):
                 out.append(('%s%s(%s)' % (prefix, n, tag), lambda v=v, n=n: getattr(inst, n)(v)))
             elif k == 'classmethod':
                 out.append(('%s%s(%s)' % (prefix, n, tag), lambda v=v, n=n: getattr(cls, n)(v)))
@@ -186,7 +190,7 @@ def run_probes(cls, spec):
 
 
 _mostly = st.sampled_from([True, True, False])
-_member = st.fixed_dictionaries({'kind': st.sampled_from(KINDS + ['rwproperty']), 'param': st.sampled_from(HINTS), 'ret': st.sampled_from(HINTS),
+_member = st.fixed_dictionaries({'kind': st.sampled_from(['undecoratable'] + KINDS + ['rwproperty']), 'param': st.sampled_from(HINTS), 'ret': st.sampled_from(HINTS),
                                  'body': st.sampled_from(['echo', 'echo', 'int', 'str']),
                                  'ann_param': _mostly, 'ann_ret': _mostly, 'ann_del': _mostly})
 
@@ -201,10 +205,20 @@ def _cls(name, depth):
                                   'dataclass': st.booleans() if depth == 2 else st.just(False)})
 
 
+def _only_where_it_warns(spec, conf):
+    """Members whose decoration fails are generated only under the configuration that turns decoration failures into warnings
+    (elsewhere the failure is fatal for both routes and there is nothing to compare)."""
+    spec = dict(spec)
+    spec['members'] = [dict(m, kind='method', name='me' + m['name'][2:]) if m['kind'] == 'undecoratable' and conf != 'warn_on_decor' else m
+                       for m in spec['members']]
+    spec['nested'] = [_only_where_it_warns(n, conf) for n in spec.get('nested', ())]
+    return spec
+
+
 def strategy(tier):
     return st.fixed_dictionaries({'cls': _cls('K', 2), 'inherit': st.booleans(),
-                                  'conf': st.sampled_from(['default', 'default', 'On', 'is_debug_off'])}).map(
-        lambda d: {'spec': dict(d['cls'], inherit=d['inherit']), 'conf': d['conf']})
+                                  'conf': st.sampled_from(['warn_on_decor', 'default', 'default', 'On', 'is_debug_off'])}).map(
+        lambda d: {'spec': dict(_only_where_it_warns(d['cls'], d['conf']), inherit=d['inherit']), 'conf': d['conf']})
 
 
 def _walk(cls, spec, fn, path=''):
@@ -217,7 +231,8 @@ def _walk(cls, spec, fn, path=''):
 def run_case(case):
     spec = case['spec']
     conf = {'default': BeartypeConf(), 'On': BeartypeConf(strategy=BeartypeStrategy.On),
-            'is_debug_off': BeartypeConf(is_debug=False)}[case['conf']]
+            'is_debug_off': BeartypeConf(is_debug=False),
+            'warn_on_decor': BeartypeConf(warning_cls_on_decorator_exception=UserWarning)}[case['conf']]
     deco = beartype(conf=conf)
     fails, seen = [], set()
     nsA, src = load(spec)
@@ -265,7 +280,7 @@ def run_case(case):
         for fb, fa in pairs:
             if fb is None:
                 continue
-            if k in ('unannotated', 'no_type_check'):
+            if k in ('unannotated', 'no_type_check', 'undecoratable'):
                 if fa is not fb:
                     fail('noop-not-identity:%s' % k, '%s%s was replaced by %r' % (path, n, fa))
                 continue
